@@ -411,6 +411,20 @@ func nhUpdateEv(ud pb.Update) nhEv {
 	return e
 }
 
+// SaveSnapshots is how a snapshot taken by the replica itself is recorded (snapshotter.Commit); received ones
+// arrive in SaveRaftState
+func (l *nhLogDB) SaveSnapshots(updates []pb.Update) error {
+	err := l.ILogDB.SaveSnapshots(updates)
+	if err == nil && l.c.ssAudit {
+		for _, ud := range updates {
+			l.c.rec.emit("SsRecord", nhEv{"h": l.h.id, "shard": ud.ShardID, "index": ud.Snapshot.Index,
+				"ondisk": ud.Snapshot.OnDiskIndex, "disksm": ud.Snapshot.Type == pb.OnDiskStateMachine,
+				"imported": ud.Snapshot.Imported, "dummy": ud.Snapshot.Dummy})
+		}
+	}
+	return err
+}
+
 func (l *nhLogDB) SaveRaftState(updates []pb.Update, workerID uint64) error {
 	err := l.ILogDB.SaveRaftState(updates, workerID)
 	if l.c.net.record {
@@ -476,6 +490,7 @@ type nhCluster struct {
 	shard        uint64
 	shards       []uint64
 	slowUs       int
+	ssAudit      bool // record what on-disk state machines persist and what snapshot records claim (mode snap)
 	emptyImage   bool // on-disk state machines write an empty image while they have applied nothing
 	armOnRecover bool
 	ssShards     uint64
